@@ -39,19 +39,24 @@ Record tcpflow := mkFlow {
 Definition flow_init (p : segment) : tcpflow :=
   mkFlow (g_src p) (g_dst p) (g_sport p) (g_dport p) [mkTd (g_seq p) (g_pay p)] [] false false.
 
-(* `sorted_data.sort_by_key(|d| d.sequence)`: a stable sort on the raw u32.  Every stable sort gives
-   the same list; this one is an insertion sort whose accumulator is kept in reverse (largest first),
-   so that input which is already ascending costs one comparison per element (the long in-order
-   traces of C11 stay linear per rebuild, as in the Rust code up to the log factor). *)
-Fixpoint insert_rev (x : tcpdata) (acc : list tcpdata) : list tcpdata :=
+(* `sorted_data.sort_by_key(|d| d.sequence.wrapping_sub(base) as i32)` with base = the sequence number of
+   the first stored segment (fix C09-seq-wrap): a stable sort by the signed 32-bit distance from the
+   base (serial number arithmetic).  `skey32 base s` is an unsigned key with the same order as
+   `(s.wrapping_sub(base)) as i32`: the distance shifted by 2^31.  Every stable sort gives the same
+   list; this one is an insertion sort whose accumulator is kept in reverse (largest first), so that
+   input which is already ascending costs one comparison per element. *)
+Definition skey32 (base s : N) : N := ((s + two32 - base) mod two32 + two31) mod two32.
+Definition sort_base (l : list tcpdata) : N := match l with [] => 0 | d :: _ => td_seq d end.
+Fixpoint insert_rev (k : tcpdata -> N) (x : tcpdata) (acc : list tcpdata) : list tcpdata :=
   match acc with
   | [] => [x]
-  | y :: r => if td_seq x <? td_seq y then y :: insert_rev x r else x :: acc
+  | y :: r => if k x <? k y then y :: insert_rev k x r else x :: acc
   end.
+Definition sort_key (l : list tcpdata) : tcpdata -> N := fun d => skey32 (sort_base l) (td_seq d).
 Definition sort_td (l : list tcpdata) : list tcpdata :=
-  frev (fold_left (fun acc x => insert_rev x acc) l []).
+  frev (fold_left (fun acc x => insert_rev (sort_key l) x acc) l []).
 
-(* TcpFlow::get_full_data: clone, sort by sequence, concatenate ALL stored segments *)
+(* TcpFlow::get_full_data: clone, sort by signed distance from the first stored segment, concatenate ALL stored segments *)
 Definition full_data (l : list tcpdata) : bytes := concat (map td_data (sort_td l)).
 
 (* is_retransmission (fix C09-dup): a stored segment with the same sequence number and the same bytes *)
